@@ -190,7 +190,9 @@ func genNetModel(t *rapid.T, o modelOpts) NetModel {
 			seen := map[string]bool{}
 			for i := 0; i < n; i++ {
 				d := pick(t, "dom", baseDomains)
-				if chance(t, "wild", 4) {
+				if chance(t, "tiny-dom", 6) {
+					d = tinyDomain(t)
+				} else if chance(t, "wild", 4) {
 					d = pick(t, "wilddom", wildDomains)
 				} else if chance(t, "subdom", 4) {
 					d = "sub." + d
@@ -209,6 +211,9 @@ func genNetModel(t *rapid.T, o modelOpts) NetModel {
 	}
 	if chance(t, "deny?", mc+1) {
 		m.Deny = subsetOf(t, "deny", baseDomains, 3)
+		if chance(t, "deny-tiny", 5) {
+			m.Deny = append(m.Deny, tinyDomain(t))
+		}
 		if chance(t, "deny-wild", 5) {
 			m.Deny = append(m.Deny, pick(t, "deny-wilddom", wildDomains))
 		}
@@ -256,6 +261,18 @@ func genNetModel(t *rapid.T, o modelOpts) NetModel {
 		}
 	}
 	return m
+}
+
+// tinyDomain draws a domain over a very small alphabet, so that two draws are
+// often textual prefixes, suffixes or extensions of each other without sitting
+// on a label boundary (b.com / ab.com / abb.com / b.ab.com).
+func tinyDomain(t *rapid.T) string {
+	labels := []string{"a", "b", "ab", "bb", "abb", "a-b"}
+	d := pick(t, "tiny-label", labels)
+	if chance(t, "tiny-two-labels", 3) {
+		d = pick(t, "tiny-label2", labels) + "." + d
+	}
+	return d + "." + pick(t, "tiny-tld", []string{"com", "com", "org", "co.uk"})
 }
 
 // needsRestriction reports whether the parser demands a restriction modifier
